@@ -73,6 +73,8 @@ class Abs:
                 S[i] = {"typed": True, "val": a[2], "h": src["h"]}
             elif op == "mov":
                 S[i] = {"typed": src["typed"], "val": src["val"], "h": src["h"]}
+                if src["typed"]:
+                    src["val"] = None       # value(std::move(other.value)): the source's value is moved-from (unspecified)
             else:
                 S[i] = {"typed": False, "val": None, "h": src["h"]}
             src["h"] = []
@@ -84,7 +86,8 @@ class Abs:
             S[i]["h"] = S[i]["h"] + S[j]["h"]
             S[j]["h"] = []
             if op == "asg" and S[i]["typed"]:
-                S[i]["val"] = S[j]["val"]
+                S[i]["val"] = S[j]["val"]    # value = std::move(other.value)
+                S[j]["val"] = None           # ... which leaves the source's value moved-from (unspecified)
         elif op == "addh":
             if not self.live(a[0]) or not (0 <= a[1] < NCOROS): return False, []
             S[a[0]]["h"] = S[a[0]]["h"] + [a[1]]
@@ -153,7 +156,8 @@ class Abs:
             return True, out
         elif op in ("size", "empty"):
             if not self.live(a[0]): return False, []
-        elif op == "val":
+        elif op in ("val", "conv", "cconv", "ares"):
+            # reading the attached value (any way, any number of times) changes nothing
             if not self.live(a[0]) or not S[a[0]]["typed"]: return False, []
         elif op == "end":
             out = []
@@ -341,7 +345,14 @@ class SPSuite(Suite):
             else:
                 ty = [i for i in live if ab.slots[i]["typed"]]
                 if ty:
-                    emit("val %d" % rng.choice(ty))
+                    i = rng.choice(ty)
+                    # read the value: one way, or several reads in a row (a read must not disturb a later one)
+                    for _ in range(rng.choice([1, 1, 2, 3])):
+                        emit("%s %d" % (rng.choice(["val", "conv", "conv", "cconv", "ares"]), i))
+                    if rng.random() < 0.3:
+                        emit("await %d %d" % (i, me_id()))       # co_await yields the value as well
+                        if rng.random() < 0.5:
+                            emit("%s %d" % (rng.choice(["conv", "ares"]), i))
         lines.append("end")
         return {"id": 0, "lines": lines}
 
@@ -397,11 +408,48 @@ class SPSuite(Suite):
                         cases.append({"id": 0, "lines": ls})
         return cases
 
+    def value_cases(self):
+        """deterministic: every order of up to 3 reads of a typed suspend point's value (conversion on a non-const / const
+        object, await_resume, co_await), alone and with a typed move construction / move assignment / slicing move /
+        merge in between, with 0, 1 and 5 handles, both modes"""
+        cases = []
+        reads = ["conv", "cconv", "ares", "val", "await"]
+        seqs = [[a] for a in reads] + [[a, b] for a in reads for b in reads] + \
+               [[a, b, c] for a in ("conv", "ares", "await") for b in ("conv", "cconv", "await") for c in ("conv", "ares", "val")]
+        for mode in ("n", "c"):
+            for nh in (0, 1, 5):
+                for between in (None, "mov", "asg", "movb", "mrg", "self"):
+                    for sq in seqs:
+                        if between is not None and len(sq) != 2:
+                            continue
+                        ls = ["case 0 sp %s 3 %d" % (mode, NCOROS), "ctorv 0 321"] + ["addh 0 %d" % k for k in range(nh)]
+                        slot = 0
+                        me = 100
+                        for k, r in enumerate(sq):
+                            if k == 1 and between == "mov":
+                                ls.append("mov 1 0"); slot = 1
+                            elif k == 1 and between == "asg":
+                                ls += ["ctorhv 1 50 654", "asg 1 0"]; slot = 1
+                            elif k == 1 and between == "movb":
+                                ls.append("movb 1 0")
+                            elif k == 1 and between == "mrg":
+                                ls += ["ctorh 1 50", "mrg 0 1"]
+                            elif k == 1 and between == "self":
+                                ls.append("asg 0 0")
+                            if r == "await":
+                                me += 1
+                                ls.append("await %d %d" % (slot, DRIVER_ID if mode == "c" else me))
+                            else:
+                                ls.append("%s %d" % (r, slot))
+                        ls += ["val %d" % slot, "end"]
+                        cases.append({"id": 0, "lines": ls})
+        return cases
+
     def exhaustive_cases(self, depth):
         """every sequence of up to `depth` macro-operations over two suspend points (slot 0 starts with 3 handles, i.e.
         at the inline limit, slot 1 with one), in both modes; `grow` adds 4 handles at once (crosses the next boundary)"""
         alphabet = ["add0", "add1", "grow0", "mrg01", "mrg10", "asg01", "self0", "mov", "pop0", "pop1", "clear0", "del0",
-                    "del1", "await0", "await1", "own0"]
+                    "del1", "await0", "await1", "own0", "conv1", "tmov1"]
         cases = []
 
         def rec(prefix):
@@ -441,6 +489,11 @@ class SPSuite(Suite):
             elif m in ("await0", "await1"):
                 me += 1
                 ls.append("await %s %d" % (m[-1], DRIVER_ID if mode == "c" else me))
+            elif m == "conv1":
+                ls += ["conv 1", "ares 1"]
+            elif m == "tmov1":
+                # typed move construction and typed move assignment back: the value travels with them
+                ls += ["mov 2 1", "conv 2", "asg 1 2", "del 2", "conv 1"]
             elif m == "own0":
                 # own handle behind whatever slot 0 holds, one more handle behind it, then co_await
                 me += 1
@@ -452,7 +505,8 @@ class SPSuite(Suite):
 
     def gen_cases(self, rng, tier):
         n = 1000 if tier == "quick" else 250000
-        cases = self.boundary_cases() + self.own_handle_cases() + self.exhaustive_cases(3 if tier == "quick" else 4)
+        cases = self.boundary_cases() + self.own_handle_cases() + self.value_cases() + \
+            self.exhaustive_cases(3 if tier == "quick" else 4)
         for _ in range(n):
             cases.append(self.gen_case(rng))
         return cases
@@ -483,6 +537,10 @@ class SPSuite(Suite):
             if w[0] == "pop" and len(head) > 1 and head[0] == "pop" and head[1] != "noop":
                 popped = int(head[1]) if head[1].isdigit() else -1
             before = list(ab.slots[int(w[1])]["h"]) if w[0] == "pop" and len(w) > 1 and ab.live(int(w[1])) else None
+            want_val = None
+            if w[0] in ("val", "conv", "cconv", "ares", "await") and len(w) > 1 and w[1].isdigit() and ab.live(int(w[1])) \
+                    and ab.slots[int(w[1])]["typed"]:
+                want_val = ab.slots[int(w[1])]["val"]
             valid, must = ab.apply(w, popped=popped)
             if ab.outside:
                 return []       # the input left the quantifier of the property: no verdict
@@ -508,10 +566,11 @@ class SPSuite(Suite):
                         msgs.append("lost: pop() returned noop although the object holds %s" % before)
                 elif popped not in (before or []):
                     msgs.append("duplicate: pop() returned %s which the object does not hold (%s)" % (popped, before))
-            if w[0] == "val" and head[:1] == ["val"]:
-                want = ab.slots[int(w[1])]["val"]
-                if head[1] != str(want):
-                    msgs.append("value: typed suspend point reports %s, its producer supplied %s" % (head[1], want))
+            if (w[0] in ("val", "conv", "cconv", "ares") and head[:1] == [w[0]]) or (w[0] == "await" and head[:1] == ["aw"]):
+                # `want` is None after the value was moved away by a typed move construction / assignment (unspecified)
+                want = want_val
+                if want is not None and len(head) > 1 and head[1] != str(want):
+                    msgs.append("value: `%s` on a typed suspend point yields %s, its producer supplied %s" % (op, head[1], want))
             if sorted(got) != sorted(must):
                 missing = sorted(set(must) - set(got))
                 extra = sorted(h for h in set(got) if got.count(h) > must.count(h))
